@@ -12,6 +12,18 @@ claimed = {
    text="Single fault injected at every position of the fault-free storage-call sequence of each sampled (statement, store, batch size, drain mode) case, every applicable fault kind; SELECT/rejected statements checked for zero mutating calls. Exhaustive in fault position within a case, sampled over cases.",
    note="Trusts SimStorage as a faithful kvql.Storage (snapshot cursors, nil for missing keys); driver stops at first error; cases are sampled by seed.",
    tech="deterministic simulation: exhaustive single-fault injection over the recorded storage-call sequence"),
+ "C12": dict(cat="exploration", ref="§4 C12",
+   text="Seeded histories of put/remove/probe statements (expressions built from their intended values, duplicate keys, `key` in values, failing evaluations) with arbitrary extra Next/Batch polls, executed on the simulated store against a model map; every write call additionally faulted with every kind (err, err-applied, err-partial at every prefix length).",
+   note="Intended values are correct by construction for the restricted expression forms; polls after an error are not examined; Put/BatchPut split not asserted.",
+   tech="deterministic simulation: seeded statement histories vs reference model map, poll-schedule variation, write-fault enumeration"),
+ "C11": dict(cat="exploration", ref="§4 C11",
+   text="Seeded stores and put/remove/delete histories; every DELETE judged against the engine's own unlimited select (row mode, cache off) on a copy of the prior state, sliced by the harness; byte-for-byte store comparison; no Put allowed; faulted sub-check (every write call x kinds, sampled reads) with narrowed oracle deleted ⊆ selected.",
+   note="Snapshot-cursor storage; reference cell is the engine's own select (relational property); cases where row and batch selects disagree are counted confounded, not judged.",
+   tech="deterministic simulation: seeded histories on snapshot-cursor storage, relational oracle, fault injection with narrowed oracle"),
+ "C08": dict(cat="exploration", ref="§4 C08",
+   text="Grid over (family, batch size, result size, offset, count, drain mode): limited result compared with the slice of the same engine's unlimited result (tie-aware for ORDER BY; store diff for DELETE). quick samples the grid with forced coincidences; thorough enumerates it completely (exhaustive: true).",
+   note="The unlimited result in the same drain mode is the reference; stores are generated so that child batches vary in size.",
+   tech="deterministic simulation: chunk-size/drain-mode configuration grid, self-relational slice oracle"),
 }
 BUILT = set(claimed)
 
